@@ -119,6 +119,8 @@ impl TTLTicker {
                     let has_not_expired = now.le(expire_after);
                     if !has_not_expired {
                         debug!("Key with id {} has expired", key);
+                        #[cfg(cached_verif)]
+                        crate::cache::verif::point("sweep.entry");
                         (evict_hook)(key);
                     }
                     has_not_expired
